@@ -211,12 +211,15 @@ static std::string parse_fresh_raw(const std::vector<std::string> &args) {
 static std::string hexw(const std::string &w) { return w.empty() ? std::string("~") : hexs(w); }
 static void suite_argvhist(Rng &rng) {
   std::string in_ok = "in.txt", in2 = "second-input-file.dat", inlong(126, 'L');
-  write_file(in_ok, rng.buf(100)); write_file(in2, rng.buf(50)); write_file(inlong, rng.buf(10));
-  g_fixed_inputs = {in_ok, in2, inlong};
-  const std::vector<std::string> modes = {"-e", "-d", "-v", "-V", "-h", "--encode", "--decode", "--verify", "--version", "--help", "--enc", "--dec", "--veri", "--vers", "--he", "--e", "--d"};
+  std::string inpct = "100%done.txt", inpct2 = "a%s%n.bin";
+  write_file(in_ok, rng.buf(100)); write_file(in2, rng.buf(50)); write_file(inlong, rng.buf(10)); write_file(inpct, rng.buf(20)); write_file(inpct2, rng.buf(20));
+  g_fixed_inputs = {in_ok, in2, inlong, inpct, inpct2};
+  const std::vector<std::string> modes = {"-e", "-d", "-v", "-V", "-h", "--encode", "--decode", "--verify", "--version", "--help", "--enc", "--dec", "--veri", "--vers", "--he", "--e", "--d",
+    "-e", "-d", "-v", "-e", "-d", "-v",                                          // weight on the plain forms
+    "-en", "-dn", "-vn", "-ne", "-nd", "-nv", "-de", "-he", "-dec", "-ver", "-enc", "-no", "-hn", "-Vn"};   // a mode given inside a cluster (some clusters spell the beginning of a long option)
   const std::vector<std::string> flags = {"-n", "--no_echo", "--no", "--n", "-ne", "-en", "-nd", "-nv", "-nn"};
   const std::vector<std::string> bad = {"-x", "-Z", "-:", "-;", "--bogus", "--bogus=1", "--ver", "--v", "--", "-", "--=x", "--encode=1", "--help=", "-m", "-m1", "-eZ", "-eZq", "-edv", "-dve", "-ved", "-nZe", "-eex", "-e:", "--cmode", "--key", "-k", "-i", "-o", "--c", "--h", "--hm", "--cm", "--o", "--i", "--k", "--ke"};
-  const std::vector<std::string> ins = {in_ok, in2, "nope.txt", inlong, "", "out.bin"};
+  const std::vector<std::string> ins = {in_ok, in2, "nope.txt", inlong, "", "out.bin", inpct, inpct2};
   const std::vector<std::string> outs = {"out.bin", "out2", "sub/y", "nodir/x", "", in_ok, "-e"};
   const std::vector<std::string> keys = {KEY_OK, KEY2, "not-a-key", "short", "ABEiM0RVZneImaq7zN3u/w=", ""};
   const std::vector<std::string> nums = {"0", "1", "2", "3", "4", "5", "9", "-1", " 2", "2x", "", "256", "+1"};
@@ -227,20 +230,24 @@ static void suite_argvhist(Rng &rng) {
       case 1: if (!val.empty()) { out.push_back(sh + val); break; } out.push_back(sh); out.push_back(val); break;
       case 2: out.push_back(pick(longs)); out.push_back(val); break;
       case 3: out.push_back(pick(longs) + "=" + val); break;
-      default: { std::string fl = pick({"-n", "-e", "-d", "-v"}); out.push_back(fl + sh.substr(1) + val); if (val.empty()) out.push_back(val); } break; } };
+      default: { std::string fl = rng.below(6) ? std::string("-n") : pick({"-e", "-d", "-v"}); out.push_back(fl + sh.substr(1) + val); if (val.empty()) out.push_back(val); } break; } };
   auto gen_cmd = [&]() {
     std::vector<std::string> a; int kind = (int)rng.below(10);
-    if (kind < 6) {               // mostly valid, random spelling
+    if (kind < 6) {               // mostly valid, random spelling: an operation with (almost always) everything it needs
       std::vector<std::vector<std::string>> parts; std::vector<std::string> t;
-      t.clear(); t.push_back(pick(modes)); parts.push_back(t);
-      if (rng.below(8)) { t.clear(); with_arg(t, "-i", {"--input", "--in", "--inp"}, rng.below(5) ? in_ok : pick(ins)); parts.push_back(t); }
-      if (rng.below(3)) { t.clear(); with_arg(t, "-o", {"--output", "--out", "--outp"}, rng.below(4) ? "out.bin" : pick(outs)); parts.push_back(t); }
-      if (rng.below(3)) { t.clear(); with_arg(t, "-k", {"--key", "--ke"}, rng.below(4) ? KEY_OK : pick(keys)); parts.push_back(t); }
-      if (!rng.below(3)) { t.clear(); std::string v = pick(nums); if (rng.below(2)) { t.push_back(pick({"--cmode", "--cm", "--cmod"})); t.push_back(v); } else t.push_back("--cmode=" + v); parts.push_back(t); }
-      if (!rng.below(3)) { t.clear(); std::string v = pick(nums); if (rng.below(2)) { t.push_back(pick({"--hmode", "--hm"})); t.push_back(v); } else t.push_back("--hmode=" + v); parts.push_back(t); }
-      if (!rng.below(4)) { t.clear(); t.push_back(pick(flags)); parts.push_back(t); }
-      if (!rng.below(5)) { t.clear(); t.push_back(pick(bad)); parts.push_back(t); }
-      if (!rng.below(5)) { t.clear(); t.push_back(pick({"stray", "in.txt", "x", "-"})); parts.push_back(t); }   // non-option words
+      int op = (int)rng.below(3);                                  // 0 encrypt, 1 decrypt, 2 verify
+      static const char *plain_mode[3] = {"-e", "-d", "-v"}; static const char *long_mode[3] = {"--encode", "--decode", "--verify"};
+      t.clear(); t.push_back(rng.below(10) == 0 ? pick(modes) : rng.below(3) ? std::string(plain_mode[op]) : std::string(long_mode[op])); parts.push_back(t);
+      auto okval = [&](const std::vector<std::string> &alts, const std::string &good) { return rng.below(8) ? good : pick(alts); };
+      if (rng.below(25)) { t.clear(); with_arg(t, "-i", {"--input", "--in", "--inp"}, okval(ins, rng.below(4) ? in_ok : in2)); parts.push_back(t); }
+      if (op == 1 ? rng.below(15) != 0 : rng.below(2)) { t.clear(); with_arg(t, "-o", {"--output", "--out", "--outp"}, okval(outs, rng.below(3) ? "out.bin" : "sub/y")); parts.push_back(t); }
+      if (op != 0 ? rng.below(15) != 0 : rng.below(5) < 2) { t.clear(); with_arg(t, "-k", {"--key", "--ke"}, okval(keys, rng.below(3) ? KEY_OK : KEY2)); parts.push_back(t); }
+      if (rng.below(5) < 2) { t.clear(); std::string v = okval(nums, std::string(1, (char)('0' + rng.below(5)))); if (rng.below(2)) { t.push_back(pick({"--cmode", "--cm", "--cmod"})); t.push_back(v); } else t.push_back("--cmode=" + v); parts.push_back(t); }
+      if (rng.below(5) < 2) { t.clear(); std::string v = okval(nums, std::string(1, (char)('0' + rng.below(3)))); if (rng.below(2)) { t.push_back(pick({"--hmode", "--hm"})); t.push_back(v); } else t.push_back("--hmode=" + v); parts.push_back(t); }
+      if (!rng.below(4)) { t.clear(); t.push_back(pick({"-n", "--no_echo", "--no", "--n", "-nn"})); parts.push_back(t); }
+      if (!rng.below(12)) { t.clear(); t.push_back(pick(flags)); parts.push_back(t); }
+      if (!rng.below(14)) { t.clear(); t.push_back(pick(bad)); parts.push_back(t); }
+      if (!rng.below(6)) { t.clear(); t.push_back(pick({"stray", "in.txt", "x", "-"})); parts.push_back(t); }   // non-option words
       for (size_t i = parts.size(); i > 1; i--) std::swap(parts[i - 1], parts[rng.below((uint32_t)i)]);
       for (auto &pp : parts) for (auto &w : pp) a.push_back(w);
     } else if (kind < 8) {        // a command line abandoned inside an option cluster
@@ -331,7 +338,12 @@ static void bin_case(const std::vector<Opt> &opts, int opres /* 1 success expect
   for (auto &o : opts) { for (auto &s : o.argv) args.push_back(s); if (!o.tok.empty()) toks += " " + o.tok; }
   std::string d = "argv:"; for (auto &s : args) d += " [" + (s.size() > 150 ? s.substr(0, 150) + "...(" + S((long)s.size()) + ")" : s) + "]";
   trace_case("bin", d);
+  std::vector<std::pair<std::string, bytes>> snap;      // inputs named by -i that exist, and are not also the output
+  for (size_t i = 0; i + 1 < args.size(); i++) if (args[i] == "-i" || args[i] == "--input") { const std::string &pth = args[i + 1]; bool isout = false;
+    for (size_t j = 0; j + 1 < args.size(); j++) if ((args[j] == "-o" || args[j] == "--output") && args[j + 1] == pth) isout = true;
+    if (!isout && pth.size() < 250 && access(pth.c_str(), R_OK) == 0) snap.push_back({pth, read_file(pth)}); }
   Run r = run_bin(args);
+  for (auto &sn : snap) if (read_file(sn.first) != sn.second) emitA("bin", "C12", "the input file was modified by the run: " + d + " -- " + note);
   if (r.sig != 0 || r.status == 99 || r.status == 98 || r.status == 127) { emitA("bin", "C17", "the program crashed (signal " + S(r.sig) + ", status " + S(r.status) + ") on " + d + " -- " + note + " -- output tail: " + hexs(r.out.substr(r.out.size() > 300 ? r.out.size() - 300 : 0))); return; }
   if (r.status != 0 && r.out.empty()) emitA("bin", "C17", "non-zero exit without any diagnostic on " + d);
   if (opres >= 0) {
@@ -410,12 +422,51 @@ static void suite_bin(Rng &rng) {
   { struct Mis { std::vector<std::string> a; const char *what; };
     std::vector<Mis> mis = { {{"-i", "p.txt"}, "no mode"}, {{"-e", "-d", "-i", "p.txt"}, "two modes"}, {{"-e"}, "missing input"}, {{"-e", "-i", "nope.txt"}, "input does not exist"},
       {{"-d", "-i", "g.wenc", "-o", "outo"}, "missing key for decryption"}, {{"-d", "-i", "g.wenc", "-k", KEY_OK}, "missing output for decryption"}, {{"-v", "-i", "g.wenc"}, "missing key for verification"},
-      {{"-e", "-i", "p.txt", "-k", "AAAAAAAAAAAAAAAAAAAAAAAA"}, "malformed key text"}, {{"-e", "-i", "p.txt", "-k", "AAAAAAAAAAAAAAAAAAAAAAAAA=="}, "key text too long"}, {{"-e", "-i", long200}, "very long path with default output"} };
+      {{"-e", "-i", "p.txt", "-k", "AAAAAAAAAAAAAAAAAAAAAAAA"}, "malformed key text"}, {{"-e", "-i", "p.txt", "-k", "AAAAAAAAAAAAAAAAAAAAAAAAA=="}, "key text too long"}, {{"-e", "-i", long200}, "very long path with default output"},
+      {{"-de", "-i", "g.wenc", "-k", KEY_OK, "-o", "outx"}, "two modes in one cluster (-de)"}, {{"-ve", "-i", "g.wenc", "-k", KEY_OK}, "two modes in one cluster (-ve)"}, {{"-he"}, "two modes in one cluster (-he)"},
+      {{"-e", "-i", "p.txt", "-dn"}, "second mode inside a cluster"} };
     for (auto &m : mis) { Run r = run_bin(m.a); g_runs++; if (r.status == 0 || r.sig || r.out.empty()) emitA("bin", "C17", std::string(m.what) + ": exit status " + S(r.status) + " signal " + S(r.sig) + (r.out.empty() ? " without any diagnostic" : "")); } }
   for (const char *k : {"AAAAAAAAAAAAAAAAAAAAAAAA", "AAAAAAAAAAAAAAAAAAAAAAA=", "short", ""}) { bin_case({E, opt_i("p.txt", true), opt_o("outa", true), opt_k(k)}, 1, "malformed key"); bin_case({D, opt_i("g.wenc", true), opt_o("outb", true), opt_k(k)}, 1, "malformed key"); }
+  { Run r = run_bin({"-en", "-i", "p.txt", "-o", "outc1", "-k", KEY_OK}); g_runs++; if (r.status != 0 || read_file("outc1").empty()) emitA("bin", "C17", "-en -i F -o G -k K (encrypt, no echo) failed: status " + S(r.status));
+    Run d = run_bin({"-d", "-i", "g.wenc", "-k", KEY_OK, "-no", "outc2"}); g_runs++; if (d.status != 0 || read_file("outc2") != plain) emitA("bin", "C17", "-d -i F -k K -no G (decrypt, no echo, output G) failed: status " + S(d.status)); }
   bin_case({E, opt_i("p.txt", true), opt_o("nodir/x", false)}, 1, "unopenable output");
   bin_case({E, opt_i("p.txt", true), {"?", {"-x"}}}, 1, "unknown option");
   emitI("bin", "runs", S(g_runs));
+}
+
+// ---- C12 / C17: no operation modifies its input; the default output of `-e -i F` is F.wenc or a diagnostic, for every path length
+// around the 128-byte name buffer and for names containing '%'
+static void suite_intact(Rng &rng) {
+  if (!getenv("WENCRY_BIN")) { emitI("intact", "skipped", "no WENCRY_BIN"); return; }
+  bytes plain = rng.buf(333); long runs = 0;
+  std::vector<std::string> names;
+  for (size_t len : {1, 7, 60, 100, 117, 118, 119, 120, 121, 122, 123, 124, 125, 126, 127, 128, 129, 130, 131, 140, 200}) names.push_back(std::string(len, (char)('a' + len % 26)));
+  for (const char *n : {"100%done.txt", "a%s%s%s%s%s%s.bin", "x%n.bin", "%", "p%d.txt", "50%%.dat", "%5c.wenc", "q%.200x"}) names.push_back(n);
+  for (auto &name : names) {
+    write_file(name, plain); std::string want = name + ".wenc"; unlink(want.c_str());
+    std::vector<std::string> before; { DIR *d = opendir("."); struct dirent *e; while (d && (e = readdir(d))) before.push_back(e->d_name); if (d) closedir(d); }
+    trace_case("intact", "-e -i <" + S((long)name.size()) + " characters: " + name.substr(0, 40) + "> -k K");
+    Run r = run_bin({"-e", "-i", name, "-k", KEY_OK}); runs++;
+    bool fits = name.size() + 5 < 128;
+    if (r.sig || r.status == 99 || r.status == 98) emitA("intact", "C17", "the program crashed (signal " + S(r.sig) + ", status " + S(r.status) + ") on -e -i <" + name.substr(0, 60) + "> (" + S((long)name.size()) + " characters)");
+    if (read_file(name) != plain) emitA("intact", "C12", "-e -i F without -o modified its input file F (" + S((long)name.size()) + " characters: " + name.substr(0, 60) + "): " + S((long)read_file(name).size()) + " bytes now, " + S((long)plain.size()) + " before");
+    bytes enc = read_file(want);
+    if (fits) {
+      if (r.status != 0) emitA("intact", "C17", "-e -i F (" + S((long)name.size()) + " characters: " + name.substr(0, 60) + ") failed with status " + S(r.status));
+      else if (enc.size() != 48 + 80 + 16 * (333 / 16 + 1)) emitA("intact", "C17", "-e -i F reported success but F.wenc was not written (F = " + name.substr(0, 60) + ", " + S((long)name.size()) + " characters; F.wenc has " + S((long)enc.size()) + " bytes)");
+      else { unlink("intact.out"); Run d = run_bin({"-d", "-i", want, "-k", KEY_OK, "-o", "intact.out"}); runs++;
+        if (d.status != 0 || read_file("intact.out") != plain) emitA("intact", "C17", "F.wenc written by -e -i F does not decrypt to F (F = " + name.substr(0, 60) + ")");
+        if (read_file(want) != enc) emitA("intact", "C12", "-d modified its input file " + want.substr(0, 60));
+        Run v = run_bin({"-v", "-i", want, "-k", KEY_OK}); runs++;
+        if (v.status != 0) emitA("intact", "C17", "-v rejects the file written by -e -i F (F = " + name.substr(0, 60) + ")");
+        if (read_file(want) != enc) emitA("intact", "C12", "-v modified its input file " + want.substr(0, 60)); }
+    } else if (r.status == 0) emitA("intact", "C17", "-e -i F with a " + S((long)name.size()) + "-character path reported success although the default output name does not fit");
+    // nothing else appeared in the directory except F.wenc
+    { DIR *d = opendir("."); struct dirent *e; while (d && (e = readdir(d))) { std::string n = e->d_name; if (n == want || n == "intact.out") continue;
+        if (std::find(before.begin(), before.end(), n) == before.end()) { emitA("intact", "C17", "-e -i F (" + S((long)name.size()) + " characters) created an unexpected file '" + n.substr(0, 80) + "' instead of F.wenc"); unlink(n.c_str()); } } if (d) closedir(d); }
+    unlink(want.c_str()); unlink(name.c_str());
+  }
+  emitI("intact", "runs", S(runs));
 }
 
 int main(int argc, char **argv) {
@@ -434,6 +485,7 @@ int main(int argc, char **argv) {
   if (which == "bin" || which == "all") suite_bin(rng);
   if (which == "parsehist") suite_parsehist(rng);
   if (which == "argvhist") suite_argvhist(rng);
+  if (which == "intact") suite_intact(rng);
   fflush(g_proto);
   if (chdir("/") != 0) return 2;
   std::string cmd = "rm -rf '" + scratch + "'"; int rc = system(cmd.c_str()); (void)rc;
